@@ -75,6 +75,8 @@ POOL = [
     # digit strings of a length that is no date format; a _str_ member that
     # is no function; a prototype chain that leads back to the object
     ("'123456789'", lambda s: V.ValueString("123456789")),
+    # a template whose placeholder names the argument variable itself
+    ("'{a#12}'", lambda s: V.ValueString("{a#12}")),
     ("<*_str_ = 5*>", lambda s: core.to_value(("obj", [("_str_", 5)]))),
     ("<*a = 1, _proto_ = itself*>", lambda s: _selfproto()),
 ]
@@ -149,7 +151,7 @@ class SweepSession:
         key = (arity, named)
         node = self._forms.get(key)
         if node is None:
-            params = ["a", "b", "c"][:arity]
+            params = ["a", "b", "c", "d"][:arity]
             if named is not None:
                 params[-1] = f"{named} = {params[-1]}"
             node = core.ckl.parser.parse_script(
@@ -166,7 +168,7 @@ class SweepSession:
             args = [first.setdefault(a, v) for a, v in zip(argnames, args)]
         env = self.env.newEnv()
         env.put("f", fn)
-        for nm, v in zip("abc", args):
+        for nm, v in zip("abcd", args):
             env.put(nm, v)
         self.session._bind_streams()
         F.seed = 1
@@ -196,9 +198,14 @@ class SweepSession:
         return o, args
 
 
+POOL4 = ["'aa'", "'a'", "' '", "'abc'", "[1, 2, 3]", "[1, 1, 1]", "0", "1",
+         "2", "-1", "NULL", "fn(x) x"]
+
+
 def arg_tuples(nparams, tier):
     """all argument tuples of arity 0..min(3, nparams) (names of pool
-    entries); quick restricts arity 3 to the sub-pool"""
+    entries); quick restricts arity 3 to the sub-pool; the few functions
+    with a fourth parameter get all 4-tuples over a 12-value pool"""
     names = [n for n, _ in POOL]
     yield ()
     if nparams >= 1:
@@ -210,6 +217,9 @@ def arg_tuples(nparams, tier):
     if nparams >= 3:
         base = names if tier == "thorough" else SUBPOOL
         for t in itertools.product(base, repeat=3):
+            yield t
+    if nparams >= 4:
+        for t in itertools.product(POOL4, repeat=4):
             yield t
 
 
